@@ -36,6 +36,11 @@ async fn main() {
         (vec!["--filter-file".into(), fx.join("ff.txt").into()], vec![("ff", "a.ff", modify), ("ok", "a.ok", modify)]),
         (vec!["--exts".into(), "rs,toml".into(), "--ignore".into(), "b.*".into()], vec![("rs", "a.rs", modify), ("toml", "a.toml", modify), ("brs", "b.rs", modify), ("ok", "a.ok", modify)]),
         (vec!["--fs-events".into(), "create".into()], vec![("create", "a.ok", create), ("modify", "a.ok", modify)]),
+        // every explicit option ALONE (nothing else that would keep a pattern list non-empty)
+        (vec!["--exts".into(), "rs,toml".into()], vec![("rs", "a.rs", modify), ("toml", "a.toml", modify), ("ok", "a.ok", modify)]),
+        (vec!["--filter".into(), "*.fl".into()], vec![("fl", "a.fl", modify), ("ok", "a.ok", modify)]),
+        (vec!["--ignore".into(), "*.ip".into()], vec![("ip", "a.ip", modify), ("ok", "a.ok", modify)]),
+        (vec!["--ignore-file".into(), fx.join("ig.txt").into()], vec![("ex", "a.ex", modify), ("ok", "a.ok", modify)]),
     ];
     let mut cases = std::fs::File::create(out("cases.txt")).unwrap();
     let mut outs = std::fs::File::create(out("impl.txt")).unwrap();
